@@ -55,8 +55,16 @@ def view_of(fr, op):
     if not isinstance(v, Ref):
         rp = stdmodel.ref_of(fr, op)
         if rp is None:
-            return None
-        v = Ref(rp[0], rp[1])
+            # a by-reference parameter of an inlined helper (or a temporary): its referent value, read-only
+            val = fr.deref_operand(op)
+            if isinstance(val, Agg):
+                key = ('view-tmp', id(val), len(fr.store))
+                fr.store[key] = val
+                v = Ref(key, [])
+            else:
+                return None
+        else:
+            v = Ref(rp[0], rp[1])
     # follow references to references
     for _ in range(6):
         tgt = fr._project(fr.store.get(v.root, TOP), [e for e in v.proj if e[0] != 'off'])
